@@ -59,9 +59,11 @@ def run(ck):
         if isinstance(h, list) and tuple(h) not in seen and any(c > 5 for c in h):
             seen.add(tuple(h))
             longs.append({"h": h, "twin": [c for c in h if c <= 5]})
-    n = 700 if quick else len(hists)
+    n = 600 if quick else len(hists)
     len3 = [h for h in hists if len(h["h"]) == 3]
-    picked = [h for h in hists if len(h["h"]) <= 2] + ck.rng.sample(len3, min(n, len(len3)))
+    len2 = [h for h in hists if len(h["h"]) == 2]
+    n2 = 600 if quick else len(len2)
+    picked = [h for h in hists if len(h["h"]) <= 1] + ck.rng.sample(len2, min(n2, len(len2))) + ck.rng.sample(len3, min(n, len(len3)))
     picked += longs[: (150 if quick else 1500)]
     evs = []
     for k, hc in enumerate(picked):
